@@ -65,6 +65,24 @@ for case in req["cases"]:
                 shared.get_clusters(alt, **kw)       # history: same atoms, other periodicity
             except ValueError:
                 pass
+            # history: OTHER structures in the same box with the same number of atoms (translated, permuted, another element)
+            import random as _random
+            r_ = _random.Random(case["id"])
+            for how in case.get("prior_structures", []):
+                oth = at.copy()
+                if how == "translated":
+                    oth.set_positions(oth.get_positions() + np.array([r_.uniform(0.3, 2.0) for _ in range(3)]))
+                elif how == "permuted":
+                    order = list(range(len(oth)))
+                    r_.shuffle(order)
+                    oth = oth[order]
+                elif how == "other-element":
+                    z = oth.get_atomic_numbers()
+                    oth.set_atomic_numbers([79 if x != 79 else 47 for x in z])
+                try:
+                    shared.get_clusters(oth, **kw)
+                except ValueError:
+                    pass
             row["prior_dim_mismatch"] = []
             for pk in case.get("prior", []):      # history: the very same atoms, other radii / thresholds
                 pk = real_kwargs(pk)
